@@ -265,10 +265,47 @@ def r3_5(ctx):
         ctx.bad("R3.5", fi.module, fi.qual, "self.sequences = self.get_sequences_from_folder()", "after pack the in-memory sequences still hold pre-pack message numbers", fi.node.lineno)
 
 
+def r3_6(ctx):
+    """msg_keys and uids are parallel lists: position i of one belongs to position i of the other.  Readers that are not queued
+    behind the mailbox's commands (POP3 reads, the resync, get_msg_by_uid's staleness guard compares only `uids`) run whenever
+    the writer is suspended.  So an element is removed from both lists with no suspension point in between - a removal from one
+    list followed by an `await` leaves every later position of the other list naming the next message."""
+    p = ctx.p
+    n = 0
+    for fi in p.funcs_in("mbox"):
+        dels = [s for s in body_walk(fi.node) if isinstance(s, ast.Delete) and len(s.targets) == 1 and isinstance(s.targets[0], ast.Subscript) and norm(s.targets[0].value) in ("self.msg_keys", "self.uids")]
+        if not dels:
+            continue
+        ctx.analysed(fi)
+        g = ctx.cfg(fi)
+        by = {}
+        for d in dels:
+            by.setdefault(norm(d.targets[0].slice), {}).setdefault(norm(d.targets[0].value), d)
+        for idx, pair in sorted(by.items()):
+            n += 1
+            if len(pair) < 2:
+                only = next(iter(pair.values()))
+                ctx.bad("R3.6", fi.module, fi.qual, norm(only), f"position `{idx}` is removed from {norm(only.targets[0].value)} but not from its parallel list: every later UID names the next message", only.lineno)
+                continue
+            na = [x for x in g.nodes_for(pair["self.msg_keys"]) if g.nodes[x].kind == "stmt"]
+            nb = [x for x in g.nodes_for(pair["self.uids"]) if g.nodes[x].kind == "stmt"]
+            ctx.require(na and nb, f"{fi.qual}: CFG nodes of the paired deletions not found")
+            first, second = (na[0], nb[0]) if nb[0] in flow.reach(g, [na[0]], flow.NORMAL) else (nb[0], na[0])
+            quiet = flow.reach(g, [first], flow.NORMAL, avoid=lambda x: g.nodes[x].awaits and x != first)
+            ctx.paths_explored += 1
+            skipped = flow.escapes_without(g, first, lambda x: x == second, [g.exit])
+            if second in quiet and skipped is None:
+                ctx.ok("R3.6", where(fi), f"msg_keys[{idx}] and uids[{idx}] are removed together, no suspension point in between")
+            else:
+                ctx.bad("R3.6", fi.module, fi.qual, f"del self.msg_keys[{idx}] ... del self.uids[{idx}]", "the two parallel lists are not shortened in one await-free step: while the task is suspended between the two deletions msg_keys and uids are misaligned, and a reader that runs then (POP3 RETR/TOP/LIST, a snapshot taken at login) gets the next message under this UID", pair["self.uids"].lineno)
+    ctx.floor("R3.6", n, 1, "paired removals from msg_keys / uids")
+
+
 def run(ctx):
     ctx.do(r3_1_2)
     ctx.do(r3_3)
     ctx.do(r3_5)
+    ctx.do(r3_6)
     from . import c10, c12
     ctx.do(c10.r10_3)
     ctx.do(c10.r10_4)
@@ -277,5 +314,7 @@ def run(ctx):
     from . import c13, c15
     ctx.do(c13.r13_5)
     ctx.do(c15.r15_3)
+    from . import c16 as _c16
+    ctx.do(_c16.r16_5)  # COPY/MOVE report the UID of the key they read, looked up while it is read
     for k, v in PAIR_EXEMPT.items():
         ctx.trust(f"frozen pairing exemption: {k} - {v}")
